@@ -6,7 +6,12 @@ set -u
 patch=$(readlink -f "$1"); prop=$2; shift 2
 d=$(mktemp -d /dev/shm/mut-XXXXXX)
 mkdir -p $d/repo $d/ev $d/rep
-rsync -a --exclude .git --exclude '*.pyc' --exclude __pycache__ /repo/ $d/repo/
+if [ -n "${BASE_COMMIT:-}" ]; then
+  # the patch was written against an older commit of /repo (a later fix: commit touched the same lines)
+  git -C /repo archive "$BASE_COMMIT" | tar -x -C $d/repo
+else
+  rsync -a --exclude .git --exclude '*.pyc' --exclude __pycache__ /repo/ $d/repo/
+fi
 if ! (cd $d/repo && patch -p1 -s < "$patch"); then echo "PATCH-FAILED"; rm -rf $d; exit 3; fi
 VERIF_REPO=$d/repo VERIF_EVIDENCE_DIR=$d/ev VERIF_REPLAY_DIR=$d/rep /verif/check $prop "$@" 2>&1 | grep -v "conda" | grep -E "VIOLATION|KNOWN|HARNESS|signature|runs=" | head -12
 rc=${PIPESTATUS[0]}
